@@ -5,7 +5,7 @@ use crate::args;
 use crate::contracts::identity::{CtiC, IdentityC, IrsC, IssuerC, ScriptIssuer, VerifierC, ED25519, SECP256K1, SECP256R1};
 use crate::report::Report;
 use crate::rng::Rng;
-use crate::world::{invoke, tag, Fail, World};
+use crate::world::{Must, invoke, tag, Fail, World};
 use crate::Cfg;
 use k256::elliptic_curve::sec1::ToEncodedPoint;
 use p256::ecdsa::signature::hazmat::PrehashSigner;
@@ -150,7 +150,7 @@ pub fn history(cfg: &Cfg, rep: &mut Report, h: u64, steps: usize, e2e: bool) {
     rep.op(format!("deploy identity stack: {ni} issuers x 3 schemes, {nid} identities, ts={ts}"));
     // registry as the contract reports it (its set/map behaviour is C20's subject)
     let registry = |w: &World| -> BTreeMap<u32, Vec<usize>> {
-        let m: Map<u32, SVec<Address>> = invoke(&w.env, &cti, "get_claim_topics_and_issuers", args!(&w.env)).expect("registry");
+        let m: Map<u32, SVec<Address>> = invoke(&w.env, &cti, "get_claim_topics_and_issuers", args!(&w.env)).must("get_claim_topics_and_issuers");
         m.iter().map(|(t, is)| (t, is.iter().map(|a| issuers.iter().position(|x| *x == a).unwrap_or(usize::MAX)).collect())).collect()
     };
     // warm-up: a populated registry with allowed keys, so that genuine claims can exist
